@@ -1942,6 +1942,24 @@ def emptiness_test(t, labs):
     return None
 
 
+def variant_test(t, labs):
+    """-> (subject, variant name, polarity): the edge asserts that `subject` (a value of a workspace enum) is / is not the
+    named variant — a switch on its discriminant with a single value in or out; None otherwise"""
+    if not (isinstance(t, tuple) and len(t) >= 3 and t[0] == "discr" and isinstance(t[2], str)):
+        return None
+    tab = WORKSPACE_DISCR.get(t[2])
+    if not tab or labs is None or len(labs) < 2:
+        return None
+    by_val = {v: k for k, v in tab.items()}
+    vals = [x for x in labs[1:]]
+    if len(vals) == 1 and vals[0] in by_val:
+        return (t[1], by_val[vals[0]], labs[0] == "in")
+    rest = [v for v in by_val if v not in vals]
+    if len(rest) == 1 and all(v in by_val for v in vals):
+        return (t[1], by_val[rest[0]], labs[0] != "in")
+    return None
+
+
 def eq_test(t, labs):
     """-> (frozenset{a, b}, polarity): the edge asserts a == b (True) / a != b (False); Eq/Ne binops, PartialEq::eq/ne
     calls and negations of them; None when t is not an equality test or the edge asserts neither"""
